@@ -765,6 +765,47 @@ def _wallet_job(spec, lines, preds, findings):
                 add_pred("bad_partial_sig_refused", got == REJECT, got, REJECT, why=why)
             add_line("parse_ser_badsig", line_of("parse_ser", PC.NET, orc, xb(rawbad)), got if got == REJECT else xb(rawbad), why=why)
 
+    # --- a GENUINE partial signature of unusual length loads and round-trips: nonce 1/2 gives r = x(G/2), 21 bytes,
+    #     so the DER string is 59 bytes instead of 70..72 (short-r signers and about one honest signature in 2^14
+    #     produce short encodings); the codec must neither refuse nor alter it
+    if n >= 1 and spec["n_inputs"] >= 1 and sig_keys[0]:
+        try:
+            import buidl.ecc as _E
+            (fi, fsec), fsig = sorted(sig_keys[0].items())[0]
+            with PC.Oracle() as o:
+                rp0 = PC.reparse(signed[0])
+            orc.merge(o)
+            pin = rp0.psbt_ins[fi]
+            priv0 = None
+            for idx in sorted(set(b.input_index)):
+                cand = w.child_priv(0, 0, idx).private_key
+                if cand.point.sec() == fsec:
+                    priv0 = cand
+            if priv0 is not None and fsig[-1] == 1:
+                if pin.prev_out is not None:
+                    z = rp0.tx_obj.sig_hash_bip143(fi, redeem_script=pin.redeem_script, witness_script=pin.witness_script, hash_type=1)
+                else:
+                    z = rp0.tx_obj.sig_hash_legacy(fi, redeem_script=pin.redeem_script, hash_type=1)
+                pk = _E.PrivateKey(priv0.secret)
+                pk.deterministic_k = lambda _z: (_E.N + 1) // 2
+                short = pk.sign(z).der() + b"\x01"
+                if len(short) < 66 and priv0.point.verify(z, _E.Signature.parse(short[:-1])):
+                    with PC.Oracle() as o:
+                        qq = PC.reparse(signed[0])
+                        qq.psbt_ins[fi].sigs[fsec] = short
+                        rawshort = qq.serialize()
+                        try:
+                            got = xb(PC.reparse(rawshort).serialize())
+                        except Exception:
+                            got = REJECT
+                    orc.merge(o)
+                    add_pred("short_partial_sig_roundtrip", got == xb(rawshort), got[:80], xb(rawshort)[:80],
+                             why=f"{len(short)}-byte partial signature (r = x(G/2))")
+                    add_line("parse_ser_shortsig", line_of("parse_ser", PC.NET, orc, xb(rawshort)), got,
+                             why="short genuine partial signature")
+        except (AttributeError, KeyError, IndexError):
+            pass        # wallet shape without a recoverable first signer: nothing to construct
+
     # --- a partial signature that does not verify is refused on load
     if n >= 1 and spec["n_inputs"] >= 1:
         made = sig_keys[0]
@@ -1129,6 +1170,7 @@ PREDICATE_DOC = {
     "extract_verifies_iff_threshold": "final_tx returns a transaction that Tx.verify accepts iff the threshold is met",
     "one_call_create_equals_two_step": "PSBT.create(tx, tx_lookup, pubkey_lookup, redeem_lookup, witness_lookup) serialises to the bytes of PSBT.create(tx) followed by update(...)",
     "one_call_workflow": "from the one-call PSBT object the needed signers sign, finalize and final_tx succeed and the transaction verifies",
+    "short_partial_sig_roundtrip": "a PSBT carrying a genuine partial signature with a short DER encoding (59 bytes, r = x(G/2)) loads and re-serialises to the identical bytes",
     "bad_partial_sig_refused": "a PSBT carrying a partial signature that does not verify is refused by PSBT.parse",
     "bip174_valid_roundtrip": "valid BIP174 vectors re-serialise to the identical bytes",
     "bip174_invalid_refused": "invalid BIP174 vectors are refused",
